@@ -23,6 +23,9 @@ pub fn catalogue(tier: Tier) -> Vec<(Spec, u32)> {
                 v.push((p1_registry(*t, m.clone(), variant), d));
             }
             for variant in 0..4u8 {
+                v.push((p1_proxy_vs_destroy(*t, m.clone(), variant), d));
+            }
+            for variant in 0..4u8 {
                 v.push((p5_listeners(*t, m.clone(), variant), d));
             }
             for variant in 0..4u8 {
